@@ -46,8 +46,8 @@ claim("C11", "lockset dataflow + wake-up pairing + routing-key provenance",
 claim("C12", "constant evaluation of decoder options + nil-flow in decoders + guard inventory",
       "Decides that the strict CBOR mode is what it says, that nothing bypasses it, that decoders cannot nil-dereference what they decoded (67 known findings for CBOR null; absent-field panics repaired by fix: commits), that every decoder keeps its validating constructor/check, and that writers and readers agree on DTO types and tags. Does not decide value-level round-trip equality.",
       NOTE_COMMON, "§5 C12")
-claim("C13", "guard + constant-comparison + call inventory",
-      "Decides that every point/scalar decoder and affine constructor keeps its on-curve setter check, length, flag and subgroup guards with the same bounds (G1.FromAffineX repaired by a fix: commit). Does not decide injectivity/round trip.",
+claim("C13", "guard + constant-comparison + call inventory, length-before-content dominance rule, subgroup sibling rule",
+      "Decides that every point/scalar decoder and affine constructor keeps its on-curve setter check, length, flag and subgroup guards with the same bounds (G1.FromAffineX repaired by a fix: commit), that no exported decoder reads a constant position of a []byte input before a test of its length (G2), and that every constructor of a prime-order type goes through a torsion check (G4). Does not decide injectivity/round trip.",
       NOTE_COMMON, "§5 C13")
 claim("C15", "guard + constant-comparison + call inventory, selector-disjointness lint",
       "Rejection clauses only: BLS identity/subgroup/pairing guards, ECDSA recovery-id/low-S/native verification guards, Schnorr/Mina equality and canonical-encoding guards are present and effective; domain-separation tags handed out by different selectors are disjoint. Does not decide acceptance of honest signatures or agreement with vectors.",
